@@ -7,6 +7,7 @@ import (
 	"fmt"
 	"os"
 	"path/filepath"
+	"sort"
 	"strings"
 	"sync"
 	"time"
@@ -29,6 +30,35 @@ type stepArg struct {
 	Action string        `json:"action"` // apply | failover-dump | dump | reinstate
 	Progs  []txn.Program `json:"progs,omitempty"`
 	Drops  []string      `json:"drops,omitempty"` // stores to RemoveBtree after the programs
+	// FailPassiveRegAfter > 0: in this step the first N block writes to registry segment files of the
+	// passive folder succeed and every later one fails (a drive that dies in the middle of a replication)
+	FailPassiveRegAfter int `json:"fail_passive_reg_after,omitempty"`
+}
+
+// midwayDIO is the fs.DirectIOSim of such a step.
+type midwayDIO struct {
+	fs.DirectIO
+	passive string
+	after   int
+	mu      sync.Mutex
+	n       int
+	failed  int
+}
+
+func (d *midwayDIO) WriteAt(ctx context.Context, f *os.File, block []byte, off int64) (int, error) {
+	if strings.HasPrefix(f.Name(), d.passive) && strings.HasSuffix(f.Name(), ".reg") {
+		d.mu.Lock()
+		d.n++
+		fail := d.n > d.after
+		if fail {
+			d.failed++
+		}
+		d.mu.Unlock()
+		if fail {
+			return 0, fmt.Errorf("verif: injected I/O error writing %s @%d", f.Name(), off)
+		}
+	}
+	return d.DirectIO.WriteAt(ctx, f, block, off)
 }
 
 type stepOut struct {
@@ -36,6 +66,8 @@ type stepOut struct {
 	CommitErrs []string   `json:"commit_errs,omitempty"`
 	Err        string     `json:"err,omitempty"`
 	ReplStat   string     `json:"replstat,omitempty"`
+	PassiveRegWritesOK     int `json:"passive_reg_writes_ok,omitempty"`
+	PassiveRegWritesFailed int `json:"passive_reg_writes_failed,omitempty"`
 }
 
 func dbOf(base string) sopx.DB {
@@ -56,6 +88,11 @@ func step(args []string) int {
 	out := stepOut{}
 	switch a.Action {
 	case "apply":
+		var mid *midwayDIO
+		if a.FailPassiveRegAfter > 0 {
+			mid = &midwayDIO{DirectIO: fs.NewDirectIO(), passive: filepath.Join(a.Base, "B") + string(os.PathSeparator), after: a.FailPassiveRegAfter}
+			fs.DirectIOSim = mid
+		}
 		for _, p := range a.Progs {
 			cctx, cancel := context.WithTimeout(ctx, 30*time.Second)
 			err := commit(cctx, db, p)
@@ -70,6 +107,10 @@ func step(args []string) int {
 			if err := database.RemoveBtree(ctx, db.Opts, s); err != nil {
 				out.Err = "RemoveBtree " + s + ": " + err.Error()
 			}
+		}
+		if mid != nil {
+			out.PassiveRegWritesFailed = mid.failed
+			out.PassiveRegWritesOK = mid.n - mid.failed
 		}
 		d := sopx.DumpDB(db)
 		out.Dump = &d
@@ -154,6 +195,9 @@ func history(r *report.Run, i int) {
 	logDir := env.Scratch("c27log")
 	defer env.Remove(logDir)
 	variant := []string{"no-failure", "no-failure", "passive-root-is-a-file", "passive-store-folder-is-a-file", "passive-registry-segment-is-a-dir"}[i%5]
+	if i >= r.Pick(15, 150) {
+		variant = "passive-registry-write-fails-midway" // the histories appended to the original ones
+	}
 	specs := []txn.Spec{{Name: "alpha", Slot: []int{2, 4, 8}[rnd.Intn(3)], Profile: sopx.Profiles[i%4]}, {Name: "beta", Slot: 4, Profile: sopx.Profiles[(i+1)%4]}, {Name: "gone", Slot: 4, Profile: sopx.InNode}}
 	basep, model := txn.Baseline(specs, 6)
 	shapes := []string{"S3-leaf-insert", "S4-split", "S6-updates", "S7-removes", "S8-mixed", "S9-multistore"}
@@ -192,7 +236,50 @@ func history(r *report.Run, i int) {
 		viol("active-dump-differs-from-model", map[string]any{"diff": d})
 		return
 	}
-	if variant != "no-failure" {
+	if variant == "passive-registry-write-fails-midway" {
+		// ONE commit that rewrites every item of alpha (several node handles of one registry table, no
+		// change of the item count) while the passive drive takes the first registry block write and fails
+		// every later one; nothing else touches that table before the drive is reinstated
+		up := txn.Program{Shape: "all-updates"}
+		var ks []string
+		for k := range model["alpha"] {
+			ks = append(ks, k)
+		}
+		sort.Strings(ks)
+		for _, k := range ks {
+			up.Ops = append(up.Ops, txn.Op{Store: "alpha", Kind: "update", K: k, V: txn.Val(fmt.Sprintf("m%d", i), 12)})
+		}
+		model = model.Apply(up)
+		o2, err := run(logDir, stepArg{Base: base, Action: "apply", Progs: []txn.Program{up}, FailPassiveRegAfter: 1})
+		if err != nil || o2.Err != "" {
+			viol("process-died-or-failed-with-passive-down", map[string]any{"err": fmt.Sprint(err), "step_err": o2.Err})
+			return
+		}
+		if len(o2.CommitErrs) > 0 && o2.CommitErrs[0] != "" {
+			viol("commit-failed-because-passive-failed", map[string]any{"err": o2.CommitErrs[0]})
+			return
+		}
+		if d := txn.DiffContent(*o2.Dump, model.Dump()); d != "" {
+			viol("active-affected-by-passive-failure", map[string]any{"diff": d})
+			return
+		}
+		r.Count("midway_passive_registry_writes_ok", int64(o2.PassiveRegWritesOK))
+		r.Count("midway_passive_registry_writes_failed", int64(o2.PassiveRegWritesFailed))
+		if o2.PassiveRegWritesFailed > 0 {
+			r.Count("midway_histories_with_a_half_replicated_commit", 1)
+		}
+		if strings.Contains(o2.ReplStat, `"FailedToReplicate":true`) {
+			r.Count("passive_failure_reported_in_replstat", 1)
+			o3, err := run(logDir, stepArg{Base: base, Action: "reinstate"})
+			if err != nil || o3.Err != "" {
+				viol("reinstate-failed", map[string]any{"err": fmt.Sprint(err), "step_err": o3.Err, "replstat": o2.ReplStat})
+				return
+			}
+		} else if o2.PassiveRegWritesFailed > 0 {
+			r.Count("passive_failure_not_reported_in_replstat(observed)", 1)
+		}
+		// no further commit: the failover dump below shows what reinstating alone made of the passive copy
+	} else if variant != "no-failure" {
 		// break the passive side, then commit more: the commits must succeed, the active side be right,
 		// replication be reported as failed
 		pb := filepath.Join(base, "B")
@@ -293,7 +380,7 @@ func history(r *report.Run, i int) {
 }
 
 func Run(r *report.Run) int {
-	n := r.Pick(15, 150)
+	n := r.Pick(18, 180)
 	var wg sync.WaitGroup
 	sem := make(chan struct{}, 8)
 	for i := 0; i < n; i++ {
@@ -312,6 +399,6 @@ func Run(r *report.Run) int {
 	return r.Finish(rule, assumptions, 8)
 }
 
-const rule = "histories over a replicated layout (two stores folders A/B + erasure-coded blobs d2p1 over three folders, database.* public path, one child process per step): store creation, 4-7 committed transactions of mixed shapes over two stores of varying value placement, a store drop; variants break the passive side before further commits (passive root / store folder replaced by a plain file, registry segment replaced by a directory), then restore it, ReinstateFailedDrives and commit more; finally fs.TriggerFailover in a fresh process, the formerly active folder is moved away, and a dump is taken (so it can only come from the former passive copy); oracle: every commit succeeds, the active dump equals the model, and the dump after failover equals the model (stores, items, counts); fingerprint = (variant, placements, history); non-trivial = the failover dump was taken"
+const rule = "histories over a replicated layout (two stores folders A/B + erasure-coded blobs d2p1 over three folders, database.* public path, one child process per step): store creation, 4-7 committed transactions of mixed shapes over two stores of varying value placement, a store drop; variants break the passive side before further commits (passive root / store folder replaced by a plain file, registry segment replaced by a directory), then restore it, ReinstateFailedDrives and commit more; the midway variant lets ONE commit that rewrites every item of a store replicate its first registry block write to the passive drive and fails every later one (fs.DirectIOSim), then reinstates and commits nothing more; finally fs.TriggerFailover in a fresh process, the formerly active folder is moved away, and a dump is taken (so it can only come from the former passive copy); oracle: every commit succeeds, the active dump equals the model, and the dump after failover equals the model (stores, items, counts); fingerprint = (variant, placements, history); non-trivial = the failover dump was taken"
 
 var assumptions = []string{"standalone in-memory L2; each step in its own process (replication state is process-global)", "passive-side failure = path element of the wrong file type (ENOTDIR/EISDIR)"}
